@@ -279,12 +279,22 @@ def err_kind(e: BaseException) -> str:
                       "NotImplementedError", "SyntaxError") else "other"
 
 
+class ErrKind(str):
+    """the error kind (compares and hashes like the plain string); its repr also shows what was raised"""
+    detail = ""
+
+    def __repr__(self):
+        return f"{str.__repr__(self)} <{self.detail}>" if self.detail else str.__repr__(self)
+
+
 def attempt(f):
     """run f(); ('ok', value) or ('err', kind)"""
     try:
         return ("ok", f())
     except Exception as e:  # noqa: BLE001
-        return ("err", err_kind(e))
+        k = ErrKind(err_kind(e))
+        k.detail = f"{type(e).__name__}: {str(e)[:200]}"
+        return ("err", k)
 
 
 # --------------------------------------------------------------------------------------
